@@ -209,10 +209,11 @@ impl StdFile {
 pub struct BincodeError { _p: () }
 
 /// `get_checksums_file_path` (storage.rs): `<project_dir>/.zinoma/<target>.checksums` — string formatting, assumed
-#[verifier::external_body]
-pub fn get_checksums_file_path(target: &TargetMetadata) -> (r: PathBuf)
+//@fn src/engine/incremental/storage.rs get_checksums_file_path assumed ret=r
+//@contract
     ensures /*[C18.path]*/ r == state_path(target.project_dir, target.id),
-{ unimplemented!() }
+//@end
+
 /// `work_dir::get_work_dir_path`
 #[verifier::external_body]
 pub fn get_work_dir_path(project_dir: &PathBuf) -> (r: PathBuf) { unimplemented!() }
@@ -312,11 +313,12 @@ pub fn serialize_into(f: StdFile, s: &TargetEnvState, Tracked(w): Tracked<&mut W
 // ===========================================================================
 // resources_state/fs.rs
 // ===========================================================================
-/// `crate::fs::list_files_in_resources` (A-fs: the whole of walkdir, is_file, `.zinoma` pruning and the extension filter)
-#[verifier::external_body]
-pub fn list_files_in_resources(resources: &[FilesResource], Tracked(w): Tracked<&mut World>) -> (r: HashSet<PathBuf>)
+/// `crate::fs::list_files_in_resources` (A-fs: the whole of walkdir, is_file, `.zinoma` pruning and the
+/// extension filter); the signature is the repository's, the body is not verified
+//@fn src/fs.rs list_files_in_resources assumed ret=r
+//@contract
     ensures *final(w) == *old(w), r@ == old(w).snap.listing(resources@),
-{ unimplemented!() }
+//@end
 
 #[verifier::external_body]
 pub struct Metadata { _p: () }
